@@ -1,5 +1,6 @@
 import LekkerVerif.Model.Modes
 import LekkerVerif.Core.ModesNet
+import LekkerVerif.Core.ModesNetN
 
 /-! # C13 — modes are independent: expand_mode replicates, connect_all pairs like modes -/
 
@@ -97,3 +98,22 @@ theorem C13_network_solved {F : Type} [Field F] {P M : Type} [DecidableEq P] [De
   · intro v
     obtain ⟨a, b, hs, hv⟩ := hu.2 v
     exact ⟨a, b, (ANet.expanded2_sol N m₁ m₂ hne a b).2 hs, hv⟩
+
+
+/-! ### any list of modes -/
+
+/-- **modes are independent, any list of modes**: `N.expandedL ms` is the circuit the code builds from a single-mode
+circuit `N` for the mode list `ms`: every block one part on the pins `(p, m)`, `m ∈ ms`, with the block-diagonal matrix
+of `expand_mode` (`C13_expand`), like modes linked by `connect_all` (`C13_connect_all`), every exposed pin exposed per
+mode.  Whatever operator solves it has the single-mode coefficient between like modes and zero between different ones -/
+theorem C13_network_independent_modes {F : Type} [Field F] {P M : Type} [DecidableEq P] [DecidableEq M]
+    (N : ANet P F) (cl : N.Closed) (hn : N.exposed.Nodup) (T : P → P → F) (h : N.SolvedBy T)
+    (ms : List M) (hms : ms.Nodup) (Tm : P × M → P × M → F) (hT : (N.expandedL ms).SolvedBy Tm) :
+    ∀ m ∈ ms, ∀ m' ∈ ms, ∀ p ∈ N.exposed, ∀ q ∈ N.exposed, Tm (p, m) (q, m') = if m = m' then T p q else 0 :=
+  ANet.expandedL_independent N cl hn T h ms hms Tm hT
+
+/-- … and the multi-mode circuit is solved by the block-diagonal operator whenever the single-mode circuit is solved -/
+theorem C13_network_solved_modes {F : Type} [Field F] {P M : Type} [DecidableEq P] [DecidableEq M]
+    (N : ANet P F) (cl : N.Closed) (T : P → P → F) (h : N.SolvedBy T) (ms : List M) (hms : ms.Nodup) :
+    (N.expandedL ms).SolvedBy (ANet.diagOp T) :=
+  ANet.expandedL_solved N cl T h ms hms
